@@ -520,6 +520,23 @@ func runC06(c *Ctx) {
 		}
 		c.check(strings.Join(ef, " ") == strings.Join(df, " ") && len(ef) > 0, "R1", pr[0]+" encoder = "+pr[1]+" decoder", p.Pos(enc.Pos()), strings.Join(ef, " "), fmt.Sprintf("the client sends [%s] after the extension name but the server decodes [%s]", strings.Join(ef, " "), strings.Join(df, " ")))
 	}
+	// fsync@openssh.com has no decoder in this package; PROTOCOL says: uint32 id, string "fsync@openssh.com", string handle
+	if en := p.NamedType(p.Sftp, "sshFxpFsyncPacket"); en == nil {
+		c.missing("R1", "sshFxpFsyncPacket")
+	} else if enc := p.methodOf(types.NewPointer(en), "MarshalBinary"); enc == nil {
+		c.missing("R1", "(*sshFxpFsyncPacket).MarshalBinary")
+	} else {
+		e := seqOf(p, enc, 0)
+		okName := len(e) > 2 && e[0].Field == "200" && e[2].Field == fmt.Sprintf("const(%q)", "fsync@openssh.com")
+		c.check(okName, "R1", "sshFxpFsyncPacket extension name", p.Pos(enc.Pos()), "fsync@openssh.com", "the client encoder does not send EXTENDED(200), the id and then the name fsync@openssh.com")
+		var ef []string
+		for i, t := range e {
+			if i >= 3 {
+				ef = append(ef, t.String())
+			}
+		}
+		c.check(strings.Join(ef, " ") == "str:Handle", "R1", "sshFxpFsyncPacket layout after the name", p.Pos(enc.Pos()), "str:Handle", fmt.Sprintf("the client sends [%s] after the extension name, PROTOCOL says [string handle]", strings.Join(ef, " ")))
+	}
 	// INIT / VERSION
 	for _, tn := range []string{"sshFxInitPacket", "sshFxVersionPacket"} {
 		nt := p.NamedType(p.Sftp, tn)
@@ -814,6 +831,8 @@ func runC06(c *Ctx) {
 	c.withRule("R16", func() { checkFrameLimits(c, newZWorld(p)) })
 	checkDecodedPacketsDoNotAliasTheBuffer(c, "R17")
 	checkHeaderReservesLengthPrefix(c, "R18")
+	checkMarshalledUnderTheGivenID(c, "R19")
+	checkExtendedFlagIffPairs(c, "R20")
 
 	// ---------- R8 count guards refuse only what cannot fit ----------
 	checkCountGuards(c, "R8")
@@ -1244,6 +1263,10 @@ func checkAttrLadders(c *Ctx, rule string, sftpOnly bool) {
 				// count then pairs of strings in a loop; names of the pair differ between the codecs
 				parts := strings.Fields(got)
 				okL = len(parts) >= 3 && strings.HasPrefix(parts[0], "u32") && strings.HasPrefix(parts[1], "str") && strings.HasSuffix(parts[1], "*") && strings.HasPrefix(parts[2], "str") && strings.HasSuffix(parts[2], "*")
+				// the pair is two different things: the type, then the data
+				if okL && strings.Contains(parts[1], ":") && parts[1] == parts[2] {
+					okL = false
+				}
 			}
 			c.check(okL, rule, fmt.Sprintf("%s flag %#x", f.name, k), p.Pos(f.fn.Pos()), got, fmt.Sprintf("under attribute flag %#x %s handles [%s], the draft says [%s]", k, f.name, got, w))
 			c.check(!guarded[k], rule, fmt.Sprintf("%s flag %#x decides alone", f.name, k), p.Pos(f.fn.Pos()), "the block is present exactly when the flag is set", fmt.Sprintf("in %s the block for attribute flag %#x is subject to a further condition after the flag test: the flag can be set on the wire without its block", f.name, k))
@@ -2057,4 +2080,121 @@ func checkHeaderReservesLengthPrefix(c *Ctx, rule string) {
 		})
 	}
 	c.check(n >= 20, rule, "marshal buffers", "?", fmt.Sprintf("%d buffers", n), fmt.Sprintf("only %d marshal buffers found in package sftp", n))
+}
+
+// checkMarshalledUnderTheGivenID (C06.R19): MarshalPacket(reqid, b) puts the packet on the wire under reqid — "the
+// internal RequestID is overridden by the reqid argument".  Whatever a MarshalPacket method hands the id to (the
+// StartPacket of its buffer, the MarshalPacket of the packet it wraps) gets the parameter itself; a stored field in
+// its place makes encode-then-decode return another id than the one asked for.
+func checkMarshalledUnderTheGivenID(c *Ctx, rule string) {
+	p := c.P
+	n := 0
+	for _, fn := range p.LibFuncs() {
+		if fn.Name() != "MarshalPacket" || (fn.Package() != p.Sshfx && fn.Package() != p.Ossh) || fn.Signature.Recv() == nil {
+			continue
+		}
+		if len(fn.Params) < 2 {
+			continue
+		}
+		id := fn.Params[1]
+		if b, ok := id.Type().Underlying().(*types.Basic); !ok || b.Kind() != types.Uint32 {
+			continue
+		}
+		ord := 0
+		eachInstr(fn, func(in ssa.Instruction) {
+			cc := callOf(in)
+			if cc == nil {
+				return
+			}
+			nm := calleeName(cc)
+			if cc.IsInvoke() {
+				nm = cc.Method.Name()
+			}
+			if nm != "MarshalPacket" && nm != "StartPacket" {
+				return
+			}
+			var arg ssa.Value
+			for _, a := range argsOf(cc) {
+				if b, ok := a.Type().Underlying().(*types.Basic); ok && b.Kind() == types.Uint32 && namedOf(a.Type()) == nil {
+					arg = a
+					break
+				}
+			}
+			if arg == nil {
+				return
+			}
+			n++
+			ord++
+			c.check(arg == ssa.Value(id), rule, fmt.Sprintf("%s hands on the id it was given #%d", fnName(fn), ord), p.Pos(in.Pos()), nm+"(…, reqid)",
+				"the id passed on is not the reqid parameter: the packet goes out under another id than the one it was marshalled under")
+		})
+	}
+	c.check(n >= 10, rule, "MarshalPacket methods handing on an id", "?", fmt.Sprintf("%d sites", n), fmt.Sprintf("only %d sites found", n))
+}
+
+// checkExtendedFlagIffPairs (C06.R20): the attribute block announces its extended pairs with one flag bit, and the
+// encoder writes the count and the pairs only under that bit.  Where a FileStat is filled from a FileInfo the bit is
+// set under a test of the pair count: taken, the count is at least one; not taken, it is zero.  A boundary shifted
+// by one drops a single pair from the wire without a trace.
+func checkExtendedFlagIffPairs(c *Ctx, rule string) {
+	p := c.P
+	k := p.Sftp.Const("sshFileXferAttrExtended")
+	if k == nil {
+		c.missing(rule, "sshFileXferAttrExtended")
+		return
+	}
+	bit, _ := constInt(k.Value)
+	w := newZWorld(p)
+	n := 0
+	for _, fn := range p.LibFuncs() {
+		if fn.Package() != p.Sftp {
+			continue
+		}
+		eachInstr(fn, func(in ssa.Instruction) {
+			or, ok := in.(*ssa.BinOp)
+			if !ok || or.Op != token.OR {
+				return
+			}
+			kv, ok := constInt(or.Y)
+			if !ok || uint32(kv) != uint32(bit) {
+				return
+			}
+			b := or.Block()
+			id := b.Idom()
+			if id == nil {
+				return
+			}
+			iff, ok := id.Instrs[len(id.Instrs)-1].(*ssa.If)
+			if !ok || len(id.Succs) != 2 {
+				return
+			}
+			truth := id.Succs[0] == b
+			if !truth && id.Succs[1] != b {
+				return
+			}
+			cmp, ok := iff.Cond.(*ssa.BinOp)
+			if !ok {
+				return
+			}
+			var lenV ssa.Value
+			for _, o := range []ssa.Value{cmp.X, cmp.Y} {
+				if call, ok := o.(*ssa.Call); ok && builtinName(&call.Call) == "len" {
+					lenV = o
+				}
+			}
+			if lenV == nil {
+				return
+			}
+			n++
+			z := w.get(fn)
+			lt := z.term(lenV)
+			nonneg := leq(linConst(0), lt, 0)
+			taken := append(z.condFacts(cmp, truth), nonneg)
+			not := append(z.condFacts(cmp, !truth), nonneg)
+			good := entails(taken, leq(linConst(1), lt, 0)) && entails(not, leq(lt, linConst(0), 0))
+			c.check(good, rule, fnName(fn)+": EXTENDED is announced exactly when there are pairs", p.Pos(or.Pos()), "bit set: count >= 1; not set: count == 0",
+				"the test under which the EXTENDED bit is set is not `count > 0`: some non-empty list of extended attributes is left out of the encoded block (or an empty one announced)")
+		})
+	}
+	c.okT(rule, "places setting the EXTENDED bit under a count test", "?", fmt.Sprintf("%d", n))
 }
